@@ -52,6 +52,9 @@ def _is_uuid(v):
 _MAN = {"man": None}
 
 
+_STRICT = {"on": True}
+
+
 def _model_accepts(pi, v) -> bool:
     man = _MAN["man"]
     if not man or pi.get("cls") not in (man.get("models") or {}):
@@ -60,6 +63,8 @@ def _model_accepts(pi, v) -> bool:
     req = {p["name"] for p in props if p["required"]}
     if not req <= set(v):
         return False
+    if not _STRICT["on"]:
+        return True
     # the values under the declared keys are of the declared kinds (one level: enough to tell members that share a key apart)
     for p in props:
         if p["name"] in v and v[p["name"]] is not None and p["kind"] not in ("AnyProperty", "ModelProperty", "UnionProperty"):
@@ -109,6 +114,13 @@ def pick_member(inners: list, v):
     for pi in inners:
         if ok(pi):
             return pi
+    if isinstance(v, dict) and _STRICT["on"]:
+        # no model member passes the look at its property kinds: fall back to the required-keys rule (the instance is valid for one of them)
+        _STRICT["on"] = False
+        try:
+            return pick_member(inners, v)
+        finally:
+            _STRICT["on"] = True
     return None
 
 
